@@ -61,6 +61,17 @@ PROPS = {
         projection="C09", monitors=["C09"],
         extra=[extra_config_probe],
     ),
+    "C10": dict(
+        props_file="Props/C10.v",
+        families=[("time", NONE, 250), ("core", NONE, 50)],
+        projection="C10", monitors=["C10"],
+        level_note="Async variants: proved on the model's virtual clock and checked on tokio's paused clock. That tokio's timer wakes the task at the deadline, and the wall-clock behaviour of the blocking variants' helper thread, are runtime facts outside the model (partial).",
+    ),
+    "C13": dict(
+        props_file="Props/C13.v",
+        families=[("time", ("testutils",), 150), ("fault", ("testutils",), 100), ("core", NONE, 50)],
+        projection="C13", monitors=["C13"],
+    ),
     "C04": dict(
         props_file="Props/C04.v",
         families=[("core", NONE, 150), ("fault", NONE, 150)],
